@@ -8,6 +8,7 @@ package vsym
 import (
 	"encoding/json"
 	"fmt"
+	"math/bits"
 	"os"
 )
 
@@ -125,6 +126,13 @@ func B2I(c bool) int {
 	}
 	return 0
 }
+
+// PopCount64 is the specification-side population count (independent of the library's popcount kernels).
+func PopCount64(w uint64) int { return bits.OnesCount64(w) }
+
+// Concrete reports whether a value is a compile-time-known constant on the current path (always true natively);
+// harness code uses it only to choose between equivalent formulations.
+func Concrete(v uint64) bool { return true }
 
 // Observe logs a value; the VM predicts it from its terms and the native run must print the same.
 func Observe(v uint64) { fmt.Printf("VERIF-OBS %d\n", v) }
